@@ -17,7 +17,7 @@ def w_classes(tier: str, max_prefix: int = 3) -> List[dw.W]:
     pats = dw.pattern_sets(2, plen)
     if tier != "quick":
         # keep the thorough family finite and relevant: two long patterns are rare in practice
-        pats = [p for p in pats if sum(len(x) for x in p) <= 5]
+        pats = [p for p in pats if sum(len(x) for x in p) <= 4 or len(p) == 1]
     stats_choices: List[Tuple[str, ...]] = [()]
     base = ["a", "b", "ab"]
     stats_choices += [(s,) for s in base]
